@@ -192,6 +192,34 @@ Definition ndp_reasons (s : st) (intf : N) (is_solicitation has_source_ll : bool
 Definition admissible (rs : list drop) (d : drop) : bool :=
   match rs with [] => drop_eqb d DNone | _ => existsb (drop_eqb d) rs end.
 
+(* arpResponder.run: processRequest again and again until it reports dropReasonClosed.  What a read
+   from the socket yields: the socket was closed, a frame the ARP / ethernet parser rejects (runt,
+   lengths larger than the frame, ...), or a well-formed frame.  A malformed frame is dropped with
+   dropReasonError and is otherwise a NO-OP: the loop goes on.  [arp_run] is the list of verdicts of
+   the frames the loop processes before it exits. *)
+Inductive rx := RxClosed | RxMalformed | RxFrame (f : arp_frame).
+Definition rx_drop (s : st) (intf mac : N) (r : rx) : drop :=
+  match r with
+  | RxClosed => DClosed
+  | RxMalformed => DError
+  | RxFrame f => arp_process_frame s intf mac f
+  end.
+Fixpoint arp_run (s : st) (intf mac : N) (rs : list rx) : list drop :=
+  match rs with
+  | [] => []
+  | r :: t => let d := rx_drop s intf mac r in
+              d :: (if drop_eqb d DClosed then [] else arp_run s intf mac t)
+  end.
+(* a variant that takes a malformed frame for the end of the socket (the loop exits) *)
+Definition rx_drop_exit (s : st) (intf mac : N) (r : rx) : drop :=
+  match r with RxMalformed => DClosed | _ => rx_drop s intf mac r end.
+Fixpoint arp_run_exit (s : st) (intf mac : N) (rs : list rx) : list drop :=
+  match rs with
+  | [] => []
+  | r :: t => let d := rx_drop_exit s intf mac r in
+              d :: (if drop_eqb d DClosed then [] else arp_run_exit s intf mac t)
+  end.
+
 (* --- histories --- *)
 Inductive upd := USet (name : N) (a : adv) | UDel (name : N).
 Definition apply_upd (s : st) (u : upd) : st :=
